@@ -1,6 +1,6 @@
 (* C07 Admission: only fully funded, well-formed orders enter the book. *)
 From ATS Require Import Prelude Dec DecFacts Uuid Semver Types Contract Tactics Spec Inv InvAsk InstProofs AskProofs
-  BidFacts InvBid InvStep ExitProofs Ledger AdmitProofs MatchLive AdmitLive Known.
+  BidFacts InvBid InvStep ExitProofs Ledger AdmitProofs MatchLive AdmitLive Known UuidFacts.
 
 (* asks, both directions, every state and environment: a create-ask request is accepted IF AND ONLY IF the id is a
    canonical hyphenated UUID, base/quote/price are non-empty, size >= 1, the base is the contract's base or a
@@ -112,3 +112,14 @@ Proof.
   destruct k_capacity_witness as (_ & H1 & H2). split; [exact H1|exact H2].
 Qed.
 Print Assumptions C07_refuted_in_K_capacity.
+
+(* "a canonical hyphenated UUID": every spelling the validator accepts (hyphenated, 32 hex digits, braced, urn:uuid:, any
+   letter case) denotes a list of exactly 32 hex digits; that list has one canonical spelling, which parses back to it and is
+   canonical; and a spelling is canonical exactly when it IS that spelling.  (Round-trip law for the uuid port, Uuid.v; the
+   port itself is compared with the crate case by case on every run.) *)
+Theorem C07_canonical_id : forall s nib,
+  uuid_parse s = Some nib ->
+  uuid_parse (uuid_hyphenated nib) = Some nib /\ uuid_canonical (uuid_hyphenated nib) = true /\
+  (uuid_canonical s = true <-> s = uuid_hyphenated nib).
+Proof. exact valid_has_canonical. Qed.
+Print Assumptions C07_canonical_id.
